@@ -25,8 +25,9 @@ class Degenerate(Exception):
 def ref_entropy(X, k):
     """log N + log c_d + d/N sum_i log rho_i + mean_i( -log max(1, inside_i) + sum_{l < rank} log(sigma_il/sigma_i0) )
     with explicit loops: own neighbour search, own centring, own SVD call per neighbourhood.
-    rank = min(k, d) is the rank of a centred generic (k+1)-point neighbourhood; the code's `> 1e-12` guards skip
-    exactly the remaining (numerically zero) singular values.  Raises Degenerate when the sample is not generic."""
+    rank = min(k, d) is the rank of a centred generic (k+1)-point neighbourhood; the code reads exactly the first
+    min(d, len(S), k) = rank singular values (the remaining one, present when k < d, is zero up to rounding noise of any size:
+    finding F6).  Raises Degenerate when the sample is not generic."""
     X = np.asarray(X, dtype=float)
     N, d = X.shape
     if not N > k + 1:
@@ -50,8 +51,6 @@ def ref_entropy(X, k):
         rank = min(k, d)
         if S[rank - 1] < 10 * GUARD or S[rank - 1] / S[0] < 10 * GUARD:
             raise Degenerate("singular value near the guard")
-        if len(S) > rank and S[rank] > GUARD / 10:
-            raise Degenerate("numerically zero singular value near the guard")
         if S[rank - 1] / S[0] < 1e-4:
             # float-level limit, not a guard: the rounding of an SVD is absolute (~1e-16 sigma_0), so log(sigma_l/sigma_0) of a
             # transformed copy can only be reproduced to ~1e-16 / ratio
@@ -144,8 +143,6 @@ def oracle_from_spy(P, S_, k, rec):
         rank = min(k, d)
         if S[rank - 1] < 10 * GUARD or S[rank - 1] / S[0] < 10 * GUARD:
             raise Degenerate("singular value near the guard")
-        if len(S) > rank and S[rank] > GUARD / 10:
-            raise Degenerate("numerically zero singular value near the guard")
         cnt = 0
         with np.errstate(all="ignore"):
             for q in nb:
@@ -218,11 +215,11 @@ def run(chk):
         "the explicit-loop evaluation of the published formula used as the property predicate, the genericity filter",
         "scipy cdist / gamma are compared, not modelled"]
     chk.assumptions += [
-        "tie-free samples, N > k+1, d in 1..5, k in 1..8, Euclidean metric; scale factors in [0.1, 10]; shifts up to 100x the data scale",
+        "tie-free samples, N > k+1, d in 1..5, k in 1..8, Euclidean metric; scale factors in [0.1, 10]; shifts up to 1e4 x the data scale",
         "generic samples: no `> 1e-12` guard within a factor 10 of flipping, no ellipsoid test within 1e-6 of its boundary, no neighbourhood "
         "with sigma_min/sigma_0 < 1e-4 (float conditioning), no near-tied neighbour distances "
-        "(a neighbourhood with k < d has exact zero singular values; shifts beyond ~1e4 x the data scale lift their rounding noise "
-        "over the absolute guard -- outside the property, see claims)",
+        "(finding F6, fixed in /repo 2752a61: a neighbourhood with k < d has exactly-zero singular values whose rounding noise passed "
+        "the absolute guard for shifted or float32 samples)",
         "theorems: the SVD data are hypotheses for d >= 2 (unchanged by isometries/row order, squares homogeneous of degree 2, guards stable); none for d = 1"]
 
     def H(X, k):
@@ -444,7 +441,9 @@ def run(chk):
             continue
         scale_x = float(np.abs(X - X.mean(axis=0)).max())
         a = float(math.exp(rng.uniform(math.log(0.1), math.log(10.0))))
-        tvec = rng.normal(size=(1, d)) * scale_x * 10.0 ** rng.uniform(-1, 2)
+        # shifts up to 1e4 x the data scale (finding F6: before repair 2752a61 a neighbourhood with k < d let rounding noise of
+        # its exactly-zero singular values pass the absolute guard once the sample was shifted by >= 1e4 x its scale)
+        tvec = rng.normal(size=(1, d)) * scale_x * 10.0 ** rng.uniform(-1, 4)
         Q = haar(rng, d)
         perm = rng.permutation(N)
         laws = [("translation invariance H(X + t) = H(X)", X + tvec, 0.0, {"shift": tvec.tolist()}),
@@ -537,7 +536,7 @@ def run(chk):
                 "law checked on the implementation and the model re-evaluated; neighbour sets and radii recovered from the spy are compared "
                 "exactly, the inside-counts against an exact rational ellipsoid test; d = 1 and d = 2 cases are additionally evaluated with NO SVD data. MI (floored) / CMI signed sums likewise on grids, via the "
                 "estimator functions and the dispatcher. Arbitrary affine-mixed Gaussian floats (scales 0.1..10): the entropy against the "
-                "explicit-loop evaluation of the published formula, the four laws with Haar orthogonal maps, shifts up to 100x the data "
+                "explicit-loop evaluation of the published formula, the four laws with Haar orthogonal maps, shifts up to 1e4 x the data "
                 "scale, a in [0.1, 10], and the MI/CMI signed sums incl. the Z=None default-k path, each sample evaluated for k, another k, and k "
                 "again in sequence (every call must return the signed sum for its own k); all at 1e-8. Non-generic samples "
                 "(guards / ellipsoid boundary / near-ties within rounding) are regenerated and counted.")
